@@ -22,7 +22,12 @@ def many_conditions(rng, n):
         else:
             s = sorted(set(rng.rng(1, n + 1) for _ in range(rng.rng(1, 3))))
         rules.append({'head': head, 'bol': rng.chance(15), 'scs': s, 'trail': None})
-    return {'csize': 256, 'caseins': False, 'scs': scs, 'rules': rules}
+        if isinstance(s, list) and len(s) >= 2 and rng.chance(60):
+            # a rule that follows in the outer scope after the nested one is closed (written with scopes by make_spec)
+            for _ in range(rng.rng(1, 2)):
+                h2 = ('cat', ('c', 97 + rng.below(4)), ('c', 101 + rng.below(3)))
+                rules.append({'head': h2, 'bol': rng.chance(15), 'scs': s[:1], 'trail': None})
+    return {'csize': 256, 'caseins': False, 'scs': scs, 'rules': rules, 'scoped': True}
 
 
 def build_cases(rng, tier):
